@@ -1,7 +1,7 @@
 (** Extraction of the tautology-prover model (C09) for the correspondence check.
     Directives: [ExtrOcamlBasic] only.  N/positive/Z/nat stay Coq inductives. *)
 From Coq Require Import Extraction ExtrOcamlBasic.
-From Pi2 Require Import Taut.Model.
+From Pi2 Require Import Taut.Model Taut.PLModel.
 Extraction Language OCaml.
 Extraction "taut_model.ml" expand to_conj_form propag_neg to_cnf to_clauses mkset resolvable is_trivial
-  start_resolution decide simplify_clause build_term tt cf_tt clauses_tt d6_witness.
+  start_resolution decide simplify_clause build_term tt cf_tt clauses_tt d6_witness tcfp pnp to_cnf_p.
